@@ -157,9 +157,19 @@ type symElemPtr struct {
 }
 
 func (p *symElemPtr) load(it *Interp) Value {
+	// restrict to the index range implied by the path's variable bounds
+	lo, hi := 0, len(p.elems)-1
+	if iv := it.ex.evalIv(p.idx, 8); iv.ok {
+		if int64(iv.lo) > int64(lo) && iv.lo < uint64(len(p.elems)) {
+			lo = int(iv.lo)
+		}
+		if iv.hi < uint64(hi) {
+			hi = int(iv.hi)
+		}
+	}
 	// ite chain over same-sorted scalar elements
 	var res *Term
-	for i := len(p.elems) - 1; i >= 0; i-- {
+	for i := hi; i >= lo; i-- {
 		e, ok := p.elems[i].(*Term)
 		if !ok {
 			panic(unsupported("symbolic index into non-scalar elements"))
